@@ -16,3 +16,28 @@ open APModel.Deep in
 def opDeepWF (j : Json) : R Json := do
   return Json.bool (wfItem envJson (← parseItem (← fld j "v")))
 end Driver
+
+namespace Driver
+open APModel.Deep
+
+/-- a JSON tree as the harness sends it: {"str":s} | {"leaf":<field value>} | {"arr":[…]} | {"obj":[[name,J],…]} | {"null":true} -/
+partial def parseJ (j : Json) : R J := do
+  if let .ok s := j.getObjVal? "str" then return .str (utf8s (← str s))
+  if let .ok v := j.getObjVal? "leaf" then return .leaf (← parseFVal v)
+  if let .ok a := j.getObjVal? "arr" then
+    let l ← (← arr a).mapM parseJ
+    return .arr (JList.ofList l)
+  if let .ok o := j.getObjVal? "obj" then
+    let ms ← (← arr o).mapM fun p => do
+      let kv ← arr p
+      match kv with
+      | [k, v] => return (utf8s (← str k), ← parseJ v)
+      | _ => throw "bad member"
+    return .obj (ms.foldr (fun (n, v) acc => .cons n v acc) .nil)
+  return .null
+
+/-- the deep reader on a document given as a JSON tree -/
+def opDeepRead (j : Json) : R Json := do
+  return renderItem (normG (readTop envJson (← parseJ (← fld j "j"))))
+
+end Driver
